@@ -463,6 +463,8 @@ func newExec(t *testing.T) func([]string) string {
 			return fmt.Sprintf("ok %s %s %s -", out.Desc(), lowS, ak)
 		case "cli":
 			return runCLI(a)
+		case "clisign":
+			return runCLISign(a) // signCert in-process: clisign_test.go
 		case "norm":
 			if len(a) != 2 {
 				return "bad-op"
@@ -591,6 +593,7 @@ func gen(r *hlib.Rand, n int, tier, profile string, emit func(string, ...any)) {
 		emit("cli %d %d %d %s %s %s %s %d %d n%x %s %s %s", caver, cf.Curve, cadur, cl.PrefixesTok(cf.Networks), cl.PrefixesTok(cf.Unsafe), cl.GroupsTok(cf.Groups),
 			hlib.B(r.Chance(1, 4)), ver, dur, lf.Name, cl.PrefixesTok(lf.Networks), cl.PrefixesTok(lf.Unsafe), cl.GroupsTok(lf.Groups))
 	}
+	genCLISign(r, 60+n/6, emit) // signCert in-process: clisign_test.go
 	emit("sws 2 -")
 	emit("sws 1 00")
 	rk := cl.NewSignKey(r, cert.Curve_P256)
